@@ -26,7 +26,13 @@ class SetupCfgParser(BaseParser):
         if "options" not in config:
             return None
 
-        dependency_lines = config["options"].get("install_requires", "").split("\n")
+        install_requires = config["options"].get("install_requires", "")
+        # either one requirement per line or, on a single line, separated by commas
+        dependency_lines = (
+            install_requires.split("\n")
+            if "\n" in install_requires
+            else [dep.strip() for dep in install_requires.split(",")]
+        )
         python_requires = config["options"].get("python_requires", "")
 
         return PackageStore(
